@@ -5,13 +5,14 @@
 //
 // Oracle on the real parser output (independent of the Lean model), for every node of every
 // error-free parse:
-//   tokstart/tokend  Pos is the start of a scanned token, End the end of one
-//   unbalanced       the tokens in [Pos, End) are balanced in () [] {}
-//   outside/overlap  children lie within the parent's span, in order, without overlapping
-//   reparse          the source slice of an expression node re-parses to the same expression
-//   layout-*         for kinds with a layout (extract/c17_layout.txt): the node's own tokens are
-//                    real tokens at the recorded offsets, Pos = start of the first element,
-//                    End = stop of the last element, elements in source order
+//
+//	tokstart/tokend  Pos is the start of a scanned token, End the end of one
+//	unbalanced       the tokens in [Pos, End) are balanced in () [] {}
+//	outside/overlap  children lie within the parent's span, in order, without overlapping
+//	reparse          the source slice of an expression node re-parses to the same expression
+//	layout-*         for kinds with a layout (extract/c17_layout.txt): the node's own tokens are
+//	                 real tokens at the recorded offsets, Pos = start of the first element,
+//	                 End = stop of the last element, elements in source order
 package main
 
 import (
@@ -41,9 +42,11 @@ type ctxFile struct {
 	short    string // case line without the tree (enough for -replay)
 	o        *vh.Out
 	seen     map[string]bool // oracle keys already reported for this file
+	nfail    int             // failures so far (to spot failures inside a subtree)
 }
 
 func (c *ctxFile) fail(key, detail string) {
+	c.nfail++
 	if c.seen[key] {
 		return
 	}
@@ -200,8 +203,9 @@ func isComment(n ast.Node) bool {
 }
 
 // check applies the oracles to n and its subtree.
-//   synthetic: n has no tokens of its own in the source (shadow entry function parts)
-//   inLit:     n lies inside a string / domain text literal (its tokens are not tokens of the file)
+//
+//	synthetic: n has no tokens of its own in the source (shadow entry function parts)
+//	inLit:     n lies inside a string / domain text literal (its tokens are not tokens of the file)
 func (c *ctxFile) check(n ast.Node, synthetic, inLit bool, depth int) {
 	if astx.IsNil(n) || depth > 3000 {
 		return
@@ -220,6 +224,40 @@ func (c *ctxFile) check(n ast.Node, synthetic, inLit bool, depth int) {
 		synthetic = true // the entry function synthesised around the top-level statements
 	}
 	file, isFile := n.(*ast.File)
+	failsBefore := c.nfail
+	// (b) nesting and order of the children (and, first, the subtrees: a wrong span inside makes every
+	// enclosing span look wrong too, so the generic checks below are skipped for ancestors)
+	fd, isFuncDecl := n.(*ast.FuncDecl)
+	var prev ast.Node
+	prevSlot := ""
+	for _, ch := range astx.SpecChildren(n) {
+		cn := ch.Node
+		childSynthetic := synthetic
+		if isFuncDecl && fd.Shadow { // Name, Type and the brace-less Body block are synthetic too
+			childSynthetic = true
+		}
+		if _, isBlock := n.(*ast.BlockStmt); isBlock && synthetic {
+			childSynthetic = false
+		}
+		childInLit := inLit || strings.HasPrefix(ch.Slot, "Extra_")
+		if !isComment(cn) && !synthetic && kind != "Package" {
+			if (cn.Pos().IsValid() || cn.End().IsValid()) && (cn.Pos() < pos || cn.End() > end) {
+				c.fail("outside:"+kind+"."+ch.Slot, fmt.Sprintf("child %s lies outside its parent %s", c.where(cn), c.where(n)))
+			}
+			skipOrder := isFuncDecl && ch.Slot == "Type" // FuncType spans from `func` to the results, around Recv and Name
+			if !skipOrder {
+				if !cn.Pos().IsValid() && !cn.End().IsValid() {
+					continue // a child without tokens takes no part in the order
+				}
+				if prev != nil && cn.Pos() < prev.End() {
+					c.fail("overlap:"+kind+"."+prevSlot+"/"+ch.Slot, fmt.Sprintf("in %s: %s starts before %s ends", c.where(n), c.where(cn), c.where(prev)))
+				}
+				prev, prevSlot = cn, ch.Slot
+			}
+		}
+		c.check(cn, childSynthetic, childInLit, depth+1)
+	}
+	cleanBelow := c.nfail == failsBefore
 	if !pos.IsValid() && !end.IsValid() && !synthetic {
 		// a node without any token (the empty receiver list of a static method `func .New()`)
 		if es, ok, _ := astx.LayoutElems(n); kind == "FieldList" || (ok && len(es) == 0) {
@@ -227,7 +265,7 @@ func (c *ctxFile) check(n ast.Node, synthetic, inLit bool, depth int) {
 			synthetic = true
 		}
 	}
-	if !synthetic && !inLit {
+	if !synthetic && !inLit && cleanBelow {
 		// (a) token boundaries
 		skipPos := isFile && file.NoPkgDecl // the implicit package name sits at offset 0
 		if !skipPos && !c.tokStart[po] {
@@ -288,37 +326,6 @@ func (c *ctxFile) check(n ast.Node, synthetic, inLit bool, depth int) {
 		} else if why != "unspecified" {
 			c.o.Count("layout_skipped_missing_mandatory")
 		}
-	}
-	// (b) nesting and order of the children
-	fd, isFuncDecl := n.(*ast.FuncDecl)
-	var prev ast.Node
-	prevSlot := ""
-	for _, ch := range astx.SpecChildren(n) {
-		cn := ch.Node
-		childSynthetic := synthetic
-		if isFuncDecl && fd.Shadow { // Name, Type and the brace-less Body block are synthetic too
-			childSynthetic = true
-		}
-		if _, isBlock := n.(*ast.BlockStmt); isBlock && synthetic {
-			childSynthetic = false
-		}
-		childInLit := inLit || strings.HasPrefix(ch.Slot, "Extra_")
-		if !isComment(cn) && !synthetic && kind != "Package" {
-			if (cn.Pos().IsValid() || cn.End().IsValid()) && (cn.Pos() < pos || cn.End() > end) {
-				c.fail("outside:"+kind+"."+ch.Slot, fmt.Sprintf("child %s lies outside its parent %s", c.where(cn), c.where(n)))
-			}
-			skipOrder := isFuncDecl && ch.Slot == "Type" // FuncType spans from `func` to the results, around Recv and Name
-			if !skipOrder {
-				if !cn.Pos().IsValid() && !cn.End().IsValid() {
-					continue // a child without tokens takes no part in the order
-				}
-				if prev != nil && cn.Pos() < prev.End() {
-					c.fail("overlap:"+kind+"."+prevSlot+"/"+ch.Slot, fmt.Sprintf("in %s: %s starts before %s ends", c.where(n), c.where(cn), c.where(prev)))
-				}
-				prev, prevSlot = cn, ch.Slot
-			}
-		}
-		c.check(cn, childSynthetic, childInLit, depth+1)
 	}
 }
 
